@@ -128,6 +128,32 @@ pub fn c08(g: &mut Gen) {
             }
         }
     }
+    // large strides (the quotient of the size formula is an integer division, whatever the stride): spans that are exact
+    // multiples of the stride and their neighbours, per axis
+    for s in [7usize, 13, 41, 47, 55, 61] {
+        for mult in [1usize, 2, 4] {
+            for off in [0usize, 1] {
+                if !g.ctx.thorough() && (s + mult + off) % 2 == 1 && s < 41 { continue; }
+                let ih = s * mult + 2 + off - 1;      // kernel 2: span = ih - 2 = s*mult - 1 + off
+                let conv = InnerSpec::Conv { filters: 1, act: "linear".into(), k: (2, 2), s: (s, 1), p: (0, 0), d: (1, 1), dropout: None,
+                    ks: vec![weights(g, &Shape::Triple(1, 2, 2), 0.5)] };
+                let net = NetSpec { input: Shape::Triple(1, ih + 1, 3), builds: vec![Build::Layer(conv), Build::Layer(dense_spec(g, &cfg, ((ih + 1 - 2) / s + 1) * 2, 2, "linear", false))],
+                    skipacc: "add".into(), loopacc: "mean".into(), opt: None, obj: "mse".into(), clamp: None };
+                g.push(format!("net {} shapes", net.token()), Tol::Exact, "large-stride/conv", true);
+                let convw = InnerSpec::Conv { filters: 1, act: "linear".into(), k: (2, 2), s: (1, s), p: (0, 0), d: (1, 1), dropout: None,
+                    ks: vec![weights(g, &Shape::Triple(1, 2, 2), 0.5)] };
+                let netw = NetSpec { input: Shape::Triple(1, 3, ih + 1), builds: vec![Build::Layer(convw)], skipacc: "add".into(), loopacc: "mean".into(), opt: None, obj: "mse".into(), clamp: None };
+                g.push(format!("net {} shapes", netw.token()), Tol::Exact, "large-stride/conv", true);
+                let mp = InnerSpec::Maxpool { k: (2, 2), s: (s, 1) };
+                let netp = NetSpec { input: Shape::Triple(1, ih + 1, 3), builds: vec![Build::Layer(mp)], skipacc: "add".into(), loopacc: "mean".into(), opt: None, obj: "mse".into(), clamp: None };
+                g.push(format!("net {} shapes", netp.token()), Tol::Exact, "large-stride/maxpool", true);
+                if mult == 1 {
+                    let x = input_for(g, &net.input);
+                    g.push(format!("net {} predict {}", net.token(), qt(&x)), Tol::Tight, "large-stride/conv/predict", true);
+                }
+            }
+        }
+    }
     // builder sequences: announced vs produced shapes, gradient shapes
     for _ in 0..g.n(150, 2000) {
         let (mut net, out) = random_net(g, &cfg);
@@ -592,6 +618,37 @@ pub fn c04(g: &mut Gen) {
             let s = samples_tok(g, &net, &out, n);
             g.push(format!("net {} relearn {} {} 0 {} {} 0", net.token(), n, s, b, e), Tol::Loose, &format!("second-run/{}/N{}/B{}", o.kind(), n, b), true);
         }
+    }
+    // groups that are fitted exactly (loss exactly 0, gradient sum exactly 0) still get their ONE optimizer step: weight
+    // decay, carried momentum and Adam-style state move the weights at a zero gradient
+    for o in [OptSpec::Sgd(0.1, Some(0.5)), OptSpec::Sgdm(0.1, 0.9, 0.0, None), OptSpec::Adam(0.05, 0.9, 0.999, 1e-8, None),
+              OptSpec::AdamW(0.05, 0.9, 0.999, 1e-8, 0.1), OptSpec::Rmsprop(0.05, 0.9, 1e-8, Some(0.1), Some(0.5), false)] {
+        let lin = InnerSpec::Dense { out: 1, act: "linear".into(), bias: true, dropout: None, w: Tensor::double(vec![vec![1.0, 2.0]]), b: Some(Tensor::single(vec![0.5])) };
+        let net = NetSpec { input: Shape::Single(2), builds: vec![Build::Layer(lin)], skipacc: "add".into(), loopacc: "mean".into(), opt: Some(o.clone()), obj: "mse".into(), clamp: None };
+        // (x, t): the first is fitted exactly by w = [1, 2], b = 0.5
+        let fitted = format!("{} {}", qt(&Tensor::single(vec![1.0, 1.0])), qt(&Tensor::single(vec![3.5])));
+        let other = format!("{} {}", qt(&Tensor::single(vec![0.5, -1.0])), qt(&Tensor::single(vec![2.0])));
+        let third = format!("{} {}", qt(&Tensor::single(vec![2.0, 0.25])), qt(&Tensor::single(vec![-1.0])));
+        for (n, b, e, toks) in [(2usize, 1usize, 2usize, vec![&fitted, &other]), (1, 4, 3, vec![&fitted]), (3, 2, 2, vec![&other, &third, &fitted]), (2, 1, 2, vec![&other, &fitted])] {
+            let s = toks.iter().map(|t| t.to_string()).collect::<Vec<_>>().join(" ");
+            g.push(format!("net {} learn {} {} 0 {} {} 0", net.token(), n, s, b, e), Tol::Loose, &format!("exactly-fitted-group/{}/N{}/B{}", o.kind(), n, b), true);
+        }
+    }
+    // dropout in a dense-only network trained WITH validation data for several epochs: the validation pass in between must
+    // not change the mode the next epoch trains in
+    for depth in [2usize, 3] {
+        let c = ArchCfg { conv: false, deconv: false, pool: false, flat_input: Some(true), dropout: false, ..cfg.clone() };
+        let mut builds = Vec::new();
+        for li in 0..depth {
+            let mut d = dense_spec(g, &c, if li == 0 { 3 } else { 5 }, if li + 1 == depth { 2 } else { 5 }, if li + 1 == depth { "linear" } else { "tanh" }, true);
+            if li + 1 < depth { if let InnerSpec::Dense { dropout, .. } = &mut d { *dropout = Some(0.5); } }
+            builds.push(Build::Layer(d));
+        }
+        let net = NetSpec { input: Shape::Single(3), builds, skipacc: "add".into(), loopacc: "mean".into(), opt: Some(OptSpec::Sgd(0.05, None)), obj: "mse".into(), clamp: None };
+        let s = samples_tok(g, &net, &Sh::Flat(2), 5);
+        let v = samples_tok(g, &net, &Sh::Flat(2), 2);
+        g.push(format!("net {} learn 5 {} 1 2 {} 5 2 3 0", net.token(), s, v), Tol::Loose, &format!("dropout-with-validation/depth{}", depth), true);
+        g.push(format!("net {} learn 5 {} 0 2 3 0", net.token(), s), Tol::Loose, &format!("dropout-without-validation/depth{}", depth), true);
     }
     // batch size 0 is refused
     let (mut net, out) = random_net(g, &cfg);
@@ -1220,6 +1277,19 @@ pub fn c01(g: &mut Gen) {
                 g.push(format!("net {} backward {} {}", net.token(), qt(&x), qt(&t)), Tol::Tight, &format!("conv/s{}d{}p{}", s, d, p), true);
             }
         }
+    }
+    // small maps with many channels under padding (padded height <= channel count) between two other layers: the padding
+    // offset is a matter of the map's height, not of its channel count
+    for (c, h, w) in [(4usize, 2usize, 2usize), (3, 1, 1), (5, 3, 3), (6, 2, 3)] {
+        let first = InnerSpec::Conv { filters: c, act: "tanh".into(), k: (1, 1), s: (1, 1), p: (0, 0), d: (1, 1), dropout: None,
+            ks: (0..c).map(|_| weights(g, &Shape::Triple(1, 1, 1), 0.8)).collect() };
+        let second = InnerSpec::Conv { filters: 2, act: "tanh".into(), k: (3, 3), s: (1, 1), p: (1, 1), d: (1, 1), dropout: None,
+            ks: (0..2).map(|_| weights(g, &Shape::Triple(c, 3, 3), 0.4)).collect() };
+        let net = NetSpec { input: Shape::Triple(1, h, w), builds: vec![Build::Layer(first), Build::Layer(second), Build::Layer(dense_spec(g, &cfg, 2 * h * w, 3, "linear", true))],
+            skipacc: "add".into(), loopacc: "mean".into(), opt: None, obj: "mse".into(), clamp: None };
+        let x = input_for(g, &net.input);
+        let t = target_for(g, &Sh::Flat(3), "mse");
+        g.push(format!("net {} backward {} {}", net.token(), qt(&x), qt(&t)), Tol::Tight, &format!("conv-many-channels/{}x{}x{}", c, h, w), true);
     }
     // soft-max output under cross-entropy (2, 3, 5 classes)
     for n in [2usize, 3, 5] {
